@@ -7,7 +7,7 @@
    str_ok s  = "len s < maxint" (representation invariant of a Go string);
    in64/oin64 = the (optional) argument is an int64.  No other bounds. *)
 From Coq Require Import ZArith List Permutation.
-From GV Require Import StrLib.Str StrLib.StrSpec StrLib.StrProofs StrLib.Tab StrLib.TabSpec StrLib.TabProofs StrLib.Sort.
+From GV Require Import StrLib.Str StrLib.StrSpec StrLib.StrProofs StrLib.StrProofs2 StrLib.Tab StrLib.TabSpec StrLib.TabProofs StrLib.TabProofs2 StrLib.Sort StrLib.SortOrder.
 Import ListNotations.
 Open Scope Z_scope.
 
@@ -45,50 +45,60 @@ Theorem C19_rep_spec_partial :
 Proof. exact rep_correct_nonneg. Qed.
 Print Assumptions C19_rep_spec_partial.
 
-(* …and the code as it stands is wrong for n < 0 *)
+(* …and for n < 0 the code raises (golua's own test suite expects this error,
+   so the defect is left open) *)
 Theorem C19_rep_spec_refuted :
   exists s n, in64 n /\ str_ok s /\ rep_im s n None = Err (ERange 2) /\ rep_spec s n None = [].
 Proof. exact rep_refuted. Qed.
 Print Assumptions C19_rep_spec_refuted.
 
-Theorem C19_find_plain_spec_refuted :
-  exists s p init, str_ok s /\ in64 init /\
-    find_plain_im s p (Some init) = Ok (Some (3, 3)) /\ find_spec s p (Some init) = Some (6, 6).
-Proof. exact find_plain_refuted. Qed.
-Print Assumptions C19_find_plain_spec_refuted.
+(* plain find (and find with an empty pattern): the leftmost occurrence at or
+   after the normalised init, for all strings and all int64 init (or none) *)
+Theorem C19_find_plain_spec :
+  forall s p init, str_ok s -> oin64 init -> find_plain_im s p init = Ok (find_spec s p init).
+Proof. exact find_plain_correct. Qed.
+Print Assumptions C19_find_plain_spec.
 
-(* upper/lower are byte-wise and length preserving on ASCII strings, for any
-   unicode.ToUpper/ToLower … *)
+Theorem C19_reverse_spec : forall s, reverse_im s = Ok (reverse_spec s).
+Proof. exact reverse_correct. Qed.
+Print Assumptions C19_reverse_spec.
+
+(* upper/lower are byte-wise (ASCII letters only) and length preserving for
+   ALL byte strings *)
 Theorem C19_upper_lower_bytewise :
-  forall um s, is_ascii s = true ->
-  upper_im um s = Ok (upper_spec s) /\ lower_im um s = Ok (lower_spec s) /\
+  forall s,
+  upper_im s = Ok (upper_spec s) /\ lower_im s = Ok (lower_spec s) /\
   length (upper_spec s) = length s /\ length (lower_spec s) = length s.
 Proof. exact upper_lower_bytewise. Qed.
 Print Assumptions C19_upper_lower_bytewise.
 
-(* … and not outside ASCII *)
-Theorem C19_upper_spec_refuted :
-  forall um, um rune_error = rune_error ->
-  exists s, upper_im um s <> Ok (upper_spec s) /\
-            (forall r, upper_im um s = Ok r -> length r = 3%nat) /\ length s = 1%nat.
-Proof. exact upper_refuted. Qed.
-Print Assumptions C19_upper_spec_refuted.
+(* no Go run-time panic (slice bounds, index) in any modelled string function *)
+Theorem C19_str_no_panic :
+  forall s, str_ok s ->
+  (forall i j, in64 i -> oin64 j -> sub_im s i j <> Panic) /\
+  (forall i j, oin64 i -> oin64 j -> byte_im s i j <> Panic) /\
+  (forall vals, char_im vals <> Panic) /\
+  len_im s <> Panic /\ reverse_im s <> Panic /\ upper_im s <> Panic /\ lower_im s <> Panic /\
+  (forall n sep, osep_ok sep -> in64 n -> rep_im s n sep <> Panic) /\
+  (forall p init, oin64 init -> find_plain_im s p init <> Panic).
+Proof. exact str_no_panic. Qed.
+Print Assumptions C19_str_no_panic.
 
-(* table.insert for every table state, every reported length 0 <= L < maxint
-   and every int64 position (or none) *)
+(* table.insert for every table state, every reported length 0 <= L <= maxint
+   (L = maxint: error, nothing changed) and every int64 position (or none) *)
 Theorem C19_insert_spec :
-  forall pos v st, 0 <= len1 st < 2^63 - 1 -> oin64 pos ->
+  forall pos v st, 0 <= len1 st <= 2^63 - 1 -> oin64 pos ->
   let L := len1 st in
   let p := match pos with Some p => p | None => L + 1 end in
   if insert_pos_ok L p
   then exists st', run (insert_im pos v) st = (ORet tt, st') /\ keeps2 st st' /\
                    forall k, m1 st' k = insert_spec (m1 st) L p v k
-  else run (insert_im pos v) st = (OFail TERange2, st).
+  else exists err, run (insert_im pos v) st = (OFail err, st).
 Proof. exact insert_correct. Qed.
 Print Assumptions C19_insert_spec.
 
 Theorem C19_remove_spec :
-  forall pos st, 0 <= len1 st < 2^63 - 1 -> oin64 pos ->
+  forall pos st, 0 <= len1 st <= 2^63 - 1 -> oin64 pos ->
   let L := len1 st in
   let p := match pos with Some p => p | None => L end in
   if remove_pos_ok L p
@@ -120,3 +130,59 @@ Theorem C19_sort_is_permutation :
   forall k, (k < 1 \/ Z.of_nat n < k) -> fst (sort_im algo n cmp m) k = m k.
 Proof. exact sort_is_permutation. Qed.
 Print Assumptions C19_sort_is_permutation.
+
+(* table.unpack: list[i..j] for all int64 i, j (defaults 1, #list); the only
+   other outcome is the implementation's result limit, raised exactly when
+   j - i >= 256 and i < maxint - 256, with nothing read or changed *)
+Theorem C19_unpack_spec :
+  forall i j st, oin64 i -> oin64 j -> in64 (len1 st) ->
+  let i0 := match i with Some i => i | None => 1 end in
+  let j0 := match j with Some j => j | None => len1 st end in
+  if (256 <=? j0 - i0) && (i0 <? 2^63 - 1 - 256)
+  then run (unpack_im i j) st = (OFail TETooMany, st)
+  else run (unpack_im i j) st = (ORet (unpack_spec (m1 st) i0 j0), st).
+Proof. exact unpack_correct. Qed.
+Print Assumptions C19_unpack_spec.
+
+Theorem C19_pack_spec :
+  forall vs st, (forall k, m1 st k = VNil) ->
+  exists st', run (pack_im vs) st = (ORet (snd (pack_spec vs)), st') /\
+              forall k, m1 st' k = fst (pack_spec vs) k.
+Proof. exact pack_correct. Qed.
+Print Assumptions C19_pack_spec.
+
+(* table.concat for all int64 i, j, any separator, any table: the manual's
+   string or the error at the first element that is not a string/number;
+   never OutOfFuel once fuel exceeds j - i *)
+Theorem C19_concat_spec :
+  forall fuel sep i j st, oin64 i -> oin64 j -> in64 (len1 st) ->
+  let i0 := match i with Some i => i | None => 1 end in
+  let j0 := match j with Some j => j | None => len1 st end in
+  let sep0 := match sep with Some s => s | None => [] end in
+  (Z.to_nat (j0 - i0) < fuel)%nat ->
+  run (concat_im fuel sep i j) st =
+  match concat_spec (m1 st) sep0 i0 j0 with
+  | inl b => (ORet b, st)
+  | inr k => (OFail (TEInvalid k), st)
+  end.
+Proof. exact concat_correct. Qed.
+Print Assumptions C19_concat_spec.
+
+(* what sortf does through Index/SetIndex is the abstract run of the sort
+   procedure on the list t[1..n] (no assumption on the procedure but
+   in-range indices) *)
+Theorem C19_sort_refines_list :
+  forall n lt s c m, in_range n s ->
+  elems (fst (run_sort s (fun _ x y => Some (lt x y)) c m)) n = run_list s lt (elems m n).
+Proof. exact sort_refines_list. Qed.
+Print Assumptions C19_sort_refines_list.
+
+(* hence: if sort.Sort is a correct comparison sort, a consistent comparison
+   leaves the table ordered ("not comp(t[j], t[i]) for i < j") *)
+Theorem C19_sort_sorted_if_consistent :
+  forall algo, (forall n, in_range n (algo n)) ->
+  (forall lt l, consistent lt -> sorted lt (run_list (algo (length l)) lt l)) ->
+  forall n lt m, consistent lt ->
+  sorted lt (elems (fst (sort_im algo n (fun _ x y => Some (lt x y)) m)) n).
+Proof. exact sort_sorted_if_consistent. Qed.
+Print Assumptions C19_sort_sorted_if_consistent.
